@@ -187,3 +187,28 @@ def history_outcome(notation, text, store0, earlier):
         return ('reject', type(e).__name__)
     except Exception as e:  # noqa: BLE001
         return ('crash', f'{type(e).__name__}: {e}')
+
+
+def redeclared_outcome(notation, text, store0):
+    """same string, same declarations, on a parser whose store reached these
+    declarations by in-place redeclaration: every symbol was first declared
+    with another arity and then assigned by index (`store[i] = Predicate(...)`);
+    an extra predicate was declared and deleted by index."""
+    from pytableaux.errors import ParseError
+    from pytableaux.lang import Parser, Predicate, Predicates
+    lexsym.reset_cache()
+    decl = [(i, s_, a) for (i, s_), a in store0.items()]
+    parser = Parser(notation, Predicates([(i, s_, a + 1) for i, s_, a in decl] + [(3, 7, 1)]))
+    store = parser.predicates
+    for k, d in enumerate(decl):
+        store[k] = Predicate(d)
+    del store[len(decl)]
+    if [(p.index, p.subscript, p.arity) for p in store] != decl:
+        return ('crash', f'store after redeclaration: {list(store)}')
+    try:
+        x = parser(text)
+        return ('sentence', to_plain(x.ident))
+    except ParseError as e:
+        return ('reject', type(e).__name__)
+    except Exception as e:  # noqa: BLE001
+        return ('crash', f'{type(e).__name__}: {e}')
